@@ -50,7 +50,7 @@ def h_binary_search(H, div):
     H.ensure('binary_search:result-in-range-and-least-upper-multiple', _bs_post(H, div, low, high, x, r))
 
 
-def h_integer_approximation(H, which, scale_bit, shift_pos, C):
+def h_integer_approximation(H, which, scale_bit, shift_pos, C, small_bias=True):
     """B2: scale integers in [1, 2^(scale_bit-1)], shift in [0, shift_pos), bias x scale within int32, approximation error bound.
     binary_search is used through its contract (proved in h_binary_search)"""
     cls = MATCHConv2d if which == 'conv2d' else MATCHLinear
@@ -59,8 +59,8 @@ def h_integer_approximation(H, which, scale_bit, shift_pos, C):
     s_y = H.tensor('s_y', ())
     bias = H.itensor('int_bias', (C,))
     H.assume(H.and_(H.gt(s_w, 0), H.gt(s_x, 0), H.gt(s_y, 0)))
-    bmax = 2 ** (32 - scale_bit)            # even the largest admissible scale cannot overflow 32 bits: a valid (scale, shift) exists
-    for b in H.elements(bias):
+    bmax = 2 ** (32 - scale_bit) if small_bias else 2 ** 31     # small: even the largest admissible scale cannot overflow 32 bits, a valid (scale, shift) always
+    for b in H.elements(bias):                                  # exists; otherwise any 32-bit integer bias: candidates whose scaled bias overflows must be rejected
         H.assume(H.and_(b >= -bmax, b <= bmax - 1))
     if H.symbolic:
         def contract(d, lo, hi, xx):
@@ -72,7 +72,13 @@ def h_integer_approximation(H, which, scale_bit, shift_pos, C):
     obj = H.bare(cls)
     obj.scale_bit = scale_bit
     obj.shift_pos = shift_pos
-    scale, shift = obj._integer_approximation(s_w, s_x, s_y, bias)
+    if small_bias:
+        scale, shift = obj._integer_approximation(s_w, s_x, s_y, bias)
+    else:
+        try:
+            scale, shift = obj._integer_approximation(s_w, s_x, s_y, bias)
+        except RuntimeError:
+            return                  # every candidate shift overflows: the selection has nothing to return (torch.tensor(None) raises) - outside the clause
     H.observe('scale', scale)
     H.observe('shift', shift)
     sh = H.scalar(shift[0])
@@ -219,6 +225,10 @@ def h_layer_reproduces(H, kind, backend, wt, p_in, p_out, p_w, clip_in, clip_out
         ks, dl = ((2, 1), (2, 1)) if dil == 0 else ((1, 2), (1, 2))
         lin = nn.Conv2d(cin, cout, ks, dilation=dl, bias=bias)
         wv = [[[[_WT[wt][o][i] * (1 if t == 0 else -0.5) for b in range(ks[1]) for t in ([a] if dil == 0 else [b])] for a in range(ks[0])] for i in range(cin)] for o in range(cout)]
+    elif kind == 'conv2d' and pad == 'h':
+        # non-square padding: a 3x1 kernel padded along the first spatial axis only
+        lin = nn.Conv2d(cin, cout, (3, 1), padding=(1, 0), bias=bias)
+        wv = [[[[_WT[wt][o][i] * (1, 0.5, -0.25)[a]] for a in range(3)] for i in range(cin)] for o in range(cout)]
     elif kind == 'conv2d':
         lin = nn.Conv2d(cin, cout, 3 if pad else 1, padding=1 if pad else 0, bias=bias)
         wv = [[[[_WT[wt][o][i] * (1 if (a, b) == (1, 1) else 0.5 if (a + b) % 2 else -0.25) for b in range(3)] for a in range(3)] for i in range(cin)] for o in range(cout)] \
@@ -280,7 +290,7 @@ def h_layer_reproduces(H, kind, backend, wt, p_in, p_out, p_w, clip_in, clip_out
     H.ensure('int-layer:stored-bias-is-an-integer-within-32-bits',
              H.and_(*[H.and_(H.is_integer(e), H.ge(e, -(2 ** 31)), H.le(e, 2 ** 31 - 1)) for e in H.elements(stored_bias)]))
     if kind == 'conv2d':
-        acc = torch.nn.functional.conv2d(x_int, layer.weight, None, 1, 1 if pad else 0, layer.dilation) + int_bias
+        acc = torch.nn.functional.conv2d(x_int, layer.weight, None, 1, (1, 0) if pad == 'h' else (1 if pad else 0), layer.dilation) + int_bias
     else:
         acc = torch.nn.functional.linear(x_int, layer.weight, None) + int_bias
     s_w = layer.s_w.view(vshape)
@@ -451,7 +461,8 @@ HARNESSES = [
          + [dict(kind=k, backend='match', wt='c', p_in=4, p_out=8, p_w=8, clip_in=1.0, clip_out=2.0, last=False, pad=False) for k in ('conv2d', 'linear')]
          + [dict(kind=k, backend=b, wt='b', p_in=8, p_out=8, p_w=8, clip_in=1.0, clip_out=2.0, last=l, pad=False, bias=False)
             for k in ('conv2d', 'linear') for b in ('match', 'maupiti') for l in (False, True)]
-         + [dict(kind='conv2d', backend=b, wt='a', p_in=8, p_out=8, p_w=8, clip_in=1.0, clip_out=2.0, last=False, pad=False, dil=d) for b in ('match', 'maupiti') for d in (0, 1)],
+         + [dict(kind='conv2d', backend=b, wt='a', p_in=8, p_out=8, p_w=8, clip_in=1.0, clip_out=2.0, last=False, pad=False, dil=d) for b in ('match', 'maupiti') for d in (0, 1)]
+         + [dict(kind='conv2d', backend=b, wt='c', p_in=8, p_out=8, p_w=8, clip_in=1.0, clip_out=2.0, last=False, pad='h') for b in ('match', 'maupiti')],
          thorough=[dict(kind=k, backend=b, wt=w, p_in=pi, p_out=po, p_w=pw, clip_in=1.0, clip_out=co, last=l, pad=pd)
                    for k in ('conv2d', 'linear') for b in ('match', 'maupiti') for l in (False, True)
                    for (w, pi, po, pw, co, pd) in (('a', 8, 8, 8, 2.0, False), ('a', 8, 8, 8, 2.0, True), ('b', 8, 8, 4, 6.0, False), ('c', 4, 8, 8, 2.0, False),
@@ -460,7 +471,8 @@ HARNESSES = [
          + [dict(kind=k, backend=b, wt=w, p_in=8, p_out=8, p_w=8, clip_in=1.0, clip_out=2.0, last=l, pad=pd, bias=False)
             for k in ('conv2d', 'linear') for b in ('match', 'maupiti') for l in (False, True) for w in ('a', 'b') for pd in (False, True) if k == 'conv2d' or not pd]
          + [dict(kind='conv2d', backend=b, wt=w, p_in=8, p_out=pq, p_w=pq, clip_in=1.0, clip_out=2.0, last=l, pad=False, bias=bs, dil=d)
-            for b in ('match', 'maupiti') for d in (0, 1) for w in ('a', 'c') for pq in (8, 4) for l in (False, True) for bs in (True, False)],
+            for b in ('match', 'maupiti') for d in (0, 1) for w in ('a', 'c') for pq in (8, 4) for l in (False, True) for bs in (True, False)]
+         + [dict(kind='conv2d', backend=b, wt=w, p_in=8, p_out=8, p_w=8, clip_in=1.0, clip_out=2.0, last=False, pad='h', bias=bs) for b in ('match', 'maupiti') for w in ('a', 'c') for bs in (True, False)],
          timeout=120, crosscheck=2),
     dict(name='maupiti-shared-quantizer', bounded='concrete values (two weight magnitudes per configuration), not symbolic', fn='h_maupiti_shared_quantizer', property=['C14'], functions=[_BK + 'maupiti/nn/conv2d.py::MAUPITIConv2d.__init__', _BK + 'maupiti/nn/conv2d.py::MAUPITIConv2d._integer_approximation'],
          quick=[dict(wa=4.0, wb=0.5), dict(wa=0.25, wb=2.0)], thorough=[dict(wa=a, wb=b) for a in (4.0, 0.25, 1.0) for b in (0.5, 2.0, 1.0)], timeout=60, crosscheck=1),
@@ -468,8 +480,10 @@ HARNESSES = [
          quick=[dict(div=d) for d in (1, 0.5, 0.25, 2 ** -10, 2 ** -23)], thorough=[dict(div=2 ** -s) for s in range(0, 32)], crosscheck=0),
     dict(name='integer-approximation', fn='h_integer_approximation', property=['C14'],
          functions=[_BK + 'match/nn/conv2d.py::MATCHConv2d._integer_approximation', _BK + 'match/nn/linear.py::MATCHLinear._integer_approximation'],
-         quick=[dict(which=w, scale_bit=4, shift_pos=2, C=1) for w in ('conv2d', 'linear')] + [dict(which='conv2d', scale_bit=8, shift_pos=3, C=2)],
-         thorough=[dict(which=w, scale_bit=sb, shift_pos=sp, C=c) for w in ('conv2d', 'linear') for sb in (4, 8, 24) for sp in (1, 2, 3, 4) for c in (1, 2)],
+         quick=[dict(which=w, scale_bit=4, shift_pos=2, C=1) for w in ('conv2d', 'linear')] + [dict(which='conv2d', scale_bit=8, shift_pos=3, C=2)]
+         + [dict(which=w, scale_bit=4, shift_pos=2, C=1, small_bias=False) for w in ('conv2d', 'linear')],
+         thorough=[dict(which=w, scale_bit=sb, shift_pos=sp, C=c) for w in ('conv2d', 'linear') for sb in (4, 8, 24) for sp in (1, 2, 3, 4) for c in (1, 2)]
+         + [dict(which=w, scale_bit=sb, shift_pos=sp, C=c, small_bias=False) for w in ('conv2d', 'linear') for sb in (4, 8) for sp in (2, 3) for c in (1, 2)],
          timeout=60, crosscheck=0),
     dict(name='pad-dilation', fn='h_pad_dilation', property=['C14'], functions=[_BK + 'match/nn/conv2d.py::MATCHConv2d._pad_dilation_in_weight'],
          quick=[dict(k=k, d=d, axis=a) for k, d in ((2, 2), (3, 2), (2, 3)) for a in (0, 1)],
